@@ -21,6 +21,14 @@ CHECKS = {
   "Seeded histories in which dated what-if simulations (1-3 changes: numeric, categorical, hourly, link, list and mixtures; dates at the first, interior and last hour, before/after/far outside the period, naive) are created at random points of an edit history, with invalid values (refused by validation) and state-derived failing values (recomputation raising midway at every raising update function) injected into the change list, followed by random set/reset toggle strings. Oracle: an identity snapshot of the whole baseline (same value objects for every input and calculated value, same link targets, same dependency edges as id sets with no non-current reference, labels, sources) is unchanged after the constructor returns or raises and after every toggle string ending in the off state; the first accepted edit after a simulation is compared with a rebuilt reference.",
   "Book-keeping attributes (previous_*, all_changes, simulation, twins, contextual containers) are excluded from 'unchanged'; edge lists compared as sets of node ids; the degenerate empty-device-list fault is excluded.",
   "deterministic simulation: seeded histories with what-if simulations, validation and recomputation faults, toggle sequences; identity snapshot oracle"),
+"C07": ("exploration", "3.C07",
+  "Monitor over seeded mixed histories (every edit kind, refused edits, failed recomputations and their recovery, what-if simulations with toggles, save/reload restarts, read-side traffic): after every step the explanation tree of every calculated attribute (and dict entry) of every object of the system is walked down to its true leaves; explain() must not raise, attached values must be labelled, every node recorded as a sum, difference, product or quotient of two operands is re-evaluated with pint/pandas directly on the operands' current raw values (hourly series aligned by timestamp with missing = 0, empty neutral for +, absorbing for *) and must reproduce the node's value and dimension, and every value-bearing leaf must have a label and a source and, when it is a calculated attribute of an object of the system, be a deliberately sourced constant.",
+  "Operators other than + - * / (max, ceil, shift, conversion to UTC, data look-ups...) are not re-evaluated (the statement names the four); hourly differences are re-evaluated only on identical indexes; the known inline unit constants (D7) are stepped over so that exploration continues and are reported as a KNOWN-FINDING.",
+  "deterministic simulation: explanation-tree monitor after every step of seeded histories with faults"),
+"C08": ("exploration", "3.C08",
+  "Monitor over the same mixed histories: after every step, for every value currently held by an object of the system - (a) every listed ancestor / child is itself currently held (nothing detached or superseded), (b) every edge is listed on both ends at node-id level (dict entries share the id of their dict), (c) the id-level graph has no cycle, (d) to_json(with calculated data) exports exactly those edges. Completeness at every plain input edit: the set of calculated attributes that differ between two systems rebuilt from the inputs before and after the edit must be included in the descendants the live graph listed for that input before the edit; and the update order derived for that input has no repeated node, covers exactly the descendants and lists every node after all of its ancestors.",
+  "Completeness uses two from-scratch builds per edit, so it is independent of any staleness of the live values; topology-changing edits feed only the consistency part; edge lists are compared as sets.",
+  "deterministic simulation: calculation-graph monitor + completeness from two rebuilt references per edit"),
 "C13": ("exploration", "3.C13",
   "Restart fault inside seeded edit histories: at random points (several per run) the live model is saved with system_to_json (with or without calculated attributes), serialised to text, every live object is dropped and the text is loaded back with json_to_system - optionally rewritten to the previous major layout first; the history then continues on the reloaded objects. Oracle right after reload: same objects, classes, ids, links, labels, sources and input values (hourly inputs are multiples of 1/8, so the documented 3-decimal rounding is lossless), all calculated values equal to a system rebuilt from the inputs, re-export equal to the first export; afterwards every accepted edit on the reloaded system is compared with a rebuilt reference (the loaded system is live).",
   "Attribution: a restart is judged only if the world being saved agrees with the reference; re-export equality is checked on the input part (save_calculated_attributes=False); the v9 rewrite covers the one documented upgrade handler (Hardware -> Device).",
@@ -37,6 +45,10 @@ CHECKS = {
   "Seeded histories made only of link operations (every list mutator with present, absent, duplicate, no-op and out-of-range arguments, list and scalar link assignments, equal/self assignments, object creation+linking, self_delete of referenced and unreferenced objects, attempts to create a second System over shared objects) checked after every operation against a plain-Python link model: exception parity with the built-in list, return values, list contents, reverse look-ups (containers, jobs of servers/storages/services, steps/patterns/networks of jobs, patterns of journeys/networks/countries, systems of every object), attachment of the live list.",
   "Arguments are always modeling objects of the class the list accepts (wrong classes are C14's subject); sort/reverse and slice assignment/deletion are not generated (DESIGN 2.3); an exception thrown from inside an update_<attr> function ends the run without a verdict (recomputation faults are C15's subject).",
   "deterministic simulation: seeded link-operation histories vs plain-Python link model"),
+"C19": ("exploration", "3.C19",
+  "Schedule exploration over order-irrelevant choices: one generated model and one edit history are executed as four variants in one process (other keyed identifiers, i.e. a fresh deal of every set order; another topological creation order; permuted system.usage_patterns / devices / same-step jobs at construction and in later list assignments) and, for the 'different processes' clause, re-executed in a second set of interpreters started with other PYTHONHASHSEED values. After construction and after every operation all variants must agree on accept/raise and on every calculated value (physical comparison, 1e-9); final values are shipped to the parent and compared across processes.",
+  "Discontinuity guard: a step is excused (counted) when a raw number of instances is within 1e-7 of an integer, where ceil() turns float noise into a unit step; index-based list operations are not generated (they are not order-irrelevant).",
+  "deterministic simulation: same history under several identifier / creation-order / list-order / hash-seed schedules"),
 "C18": ("exploration", "3.C18",
   "Schedule exploration: after a seeded edit history (interleaved with read-side requests: explain, str/repr, to_json with calculated data, summed-over-period views, plotly and matplotlib plots, calculus and object-relationship graph exports) the scheduler issues explicit recomputation requests - compute_calculated_attributes() on a drawn subset of the objects in canonical, reverse, random or repeated order, and system.after_init() - one at a time. After every single request and every read, every calculated value must be physically equal to its value before and every input must keep its physical value (units may change).",
   "Judged only on a model that agrees with a rebuilt reference (attribution); explicit recomputation requests are issued at the tail of a run, never followed by edits (the statement quantifies over requests after an edit history); a read that raises is counted, not reported (robustness is outside the statement), but what it changed before raising is judged.",
